@@ -646,6 +646,9 @@ func itemsOf(svcs []string) []int {
 // the store is open; before that it sleeps 50 us.
 func watchItems(n int, svcs []string, dataDir string) {
 	runtime.LockOSThread()
+	// on a busy machine a spinning thread is descheduled for milliseconds at a time, longer than a Set takes:
+	// the watcher's thread asks for the highest nice level (the harness runs as root; refused: goes on as it is)
+	syscall.Setpriority(syscall.PRIO_PROCESS, syscall.Gettid(), -20)
 	die := func() {
 		syscall.Kill(os.Getpid(), syscall.SIGKILL)
 		select {}
